@@ -58,6 +58,9 @@ func runC07(l *core.Ledger) {
 // errNonNilByConstruction decides that v is an error value that cannot be
 // nil at node n.
 func errNonNilByConstruction(fn *ssa.Function, v ssa.Value, n sx.Node) (bool, string) {
+	if sx.KnownNonNil(v, n.B) {
+		return true, "tested non-nil on every path here"
+	}
 	os := sx.Origins(v)
 	ok := sx.All(os, func(o sx.Origin) bool {
 		switch o.Kind {
